@@ -25,6 +25,7 @@ def FlagsInv (L : Layout) (fl : Option FRef) (s : Cpu) : Prop :=
   | some (.var v) => s.f.z = (s.mem.read (L v) == 0)
   | some .x => s.f.z = (s.x == 0)
   | some .y => s.f.z = (s.y == 0)
+  | some (.el t i) => s.f.z = (s.mem.read (elAddr L s.x s.y t i) == 0)
 
 @[simp] theorem flagsInv_none (L : Layout) (s : Cpu) : FlagsInv L none s := trivial
 
@@ -55,7 +56,7 @@ theorem opCode_exec (L : Layout) (s : Cpu) (op : BOp) (y : RA) :
   cases y with
   | of a =>
     by_cases hid : isIdentity op a = true
-    · have hv := identity_apply op a L s.mem s.a hid
+    · have hv := identity_apply op a L s.mem s.x s.y s.a hid
       cases op <;> simp [opCode, rIsIdentity, hid, carryOf, execSeq, Cpu.exec, rval, tmpWrite, RA.isReg, srcOf, hv]
     · have hid' : isIdentity op a = false := by simpa using hid
       have hr := rd_opd L s a
@@ -107,6 +108,7 @@ theorem storeA_exec (L : Layout) (s : Cpu) (v : LV) :
   | var n => simp [storeA, execSeq, Cpu.exec, opd, Cpu.ea, wr, srcOf, FlagsInv]
   | x => simp [storeA, execSeq, Cpu.exec, wr, srcOf, FlagsInv]
   | y => simp [storeA, execSeq, Cpu.exec, wr, srcOf, FlagsInv]
+  | el t i => cases i <;> simp [storeA, execSeq, Cpu.exec, opd, Cpu.ea, wr, srcOf, FlagsInv, elAddr]
 
 theorem forgetMem_inv (L : Layout) (fl : Option FRef) (s s' : Cpu) (h : FlagsInv L fl s)
     (hx : s'.x = s.x) (hy : s'.y = s.y) (hf : s'.f = s.f) : FlagsInv L (forgetMem fl) s' := by
@@ -115,43 +117,82 @@ theorem forgetMem_inv (L : Layout) (fl : Option FRef) (s s' : Cpu) (h : FlagsInv
   | some r =>
     cases r with
     | var n => trivial
+    | el t i => trivial
     | x => simpa [forgetMem, FlagsInv, hx, hf] using h
     | y => simpa [forgetMem, FlagsInv, hy, hf] using h
 
 /-- plain assignment -/
-theorem asgCode_exec (L : Layout) (s : Cpu) (fl : Option FRef) (v : LV) (a : RA) (hinv : FlagsInv L fl s) :
-    ∃ s', execSeq s (asgCode Opd.none (opd L) v a) = some s' ∧ srcOf s' = wr L (srcOf s) v (rval L (srcOf s) a) ∧
-      s'.sp = s.sp ∧ FlagsInv L (asgFlags fl v a) s' := by
+theorem asgCode_exec (L : Layout) (zp : String → Bool) (s : Cpu) (fl : Option FRef) (v : LV) (a : RA) (hinv : FlagsInv L fl s) :
+    ∃ s', execSeq s (asgCode Opd.none (opd L) zp v a) = some s' ∧ srcOf s' = wr L (srcOf s) v (rval L (srcOf s) a) ∧
+      s'.sp = s.sp ∧ FlagsInv L (asgFlags zp fl v a) s' := by
   cases v with
   | var n =>
     cases a with
     | of b =>
-      cases b <;> simp [asgCode, execSeq, Cpu.exec, Cpu.rd, opd, Cpu.ea, wr, rval, val, srcOf, asgFlags, FlagsInv]
+      have hr := rd_opd L s b
+      simp [asgCode, execSeq, Cpu.exec, hr, Cpu.ea, wr, rval, srcOf, asgFlags, FlagsInv]
     | x =>
       refine ⟨{ s with mem := s.mem.write (L n) s.x }, by simp [asgCode, execSeq, Cpu.exec, opd, Cpu.ea], by simp [wr, rval, srcOf], rfl, ?_⟩
       exact forgetMem_inv L fl s _ hinv rfl rfl rfl
     | y =>
       refine ⟨{ s with mem := s.mem.write (L n) s.y }, by simp [asgCode, execSeq, Cpu.exec, opd, Cpu.ea], by simp [wr, rval, srcOf], rfl, ?_⟩
       exact forgetMem_inv L fl s _ hinv rfl rfl rfl
+  | el t i =>
+    cases a with
+    | of b =>
+      have hr := rd_opd L s b
+      cases i <;> simp [asgCode, execSeq, Cpu.exec, hr, Cpu.ea, wr, rval, srcOf, asgFlags, FlagsInv, elAddr]
+    | x =>
+      cases i with
+      | k n =>
+        refine ⟨{ s with mem := s.mem.write (L t + BitVec.ofNat 16 n) s.x }, by simp [asgCode, execSeq, Cpu.exec, opd, Cpu.ea],
+          by simp [wr, rval, srcOf, elAddr], rfl, ?_⟩
+        exact forgetMem_inv L fl s _ hinv rfl rfl rfl
+      | x => simp [asgCode, execSeq, Cpu.exec, opd, Cpu.ea, wr, rval, srcOf, asgFlags, FlagsInv, elAddr]
+      | y => simp [asgCode, execSeq, Cpu.exec, opd, Cpu.ea, wr, rval, srcOf, asgFlags, FlagsInv, elAddr]
+    | y =>
+      cases i with
+      | k n =>
+        refine ⟨{ s with mem := s.mem.write (L t + BitVec.ofNat 16 n) s.y }, by simp [asgCode, execSeq, Cpu.exec, opd, Cpu.ea],
+          by simp [wr, rval, srcOf, elAddr], rfl, ?_⟩
+        exact forgetMem_inv L fl s _ hinv rfl rfl rfl
+      | x =>
+        by_cases hz : zp t = true
+        · refine ⟨{ s with mem := s.mem.write (L t + s.x.zeroExtend 16) s.y }, by simp [asgCode, hz, execSeq, Cpu.exec, opd, Cpu.ea],
+            by simp [wr, rval, srcOf, elAddr], rfl, ?_⟩
+          simp only [asgFlags, hz, if_true]
+          exact forgetMem_inv L fl s _ hinv rfl rfl rfl
+        · have hz' : zp t = false := by simpa using hz
+          simp [asgCode, hz', execSeq, Cpu.exec, opd, Cpu.ea, wr, rval, srcOf, asgFlags, FlagsInv, elAddr]
+      | y => simp [asgCode, execSeq, Cpu.exec, opd, Cpu.ea, wr, rval, srcOf, asgFlags, FlagsInv, elAddr]
   | x =>
     cases a with
     | of b =>
-      cases b <;> simp [asgCode, execSeq, Cpu.exec, Cpu.rd, opd, Cpu.ea, wr, rval, val, srcOf, asgFlags, FlagsInv]
+      have hr := rd_opd L s b
+      cases b with
+      | const n => simp [asgCode, execSeq, Cpu.exec, Cpu.rd, opd, Cpu.ea, wr, rval, val, srcOf, asgFlags, FlagsInv]
+      | var w => simp [asgCode, execSeq, Cpu.exec, Cpu.rd, opd, Cpu.ea, wr, rval, val, srcOf, asgFlags, FlagsInv]
+      | el t i =>
+        cases i <;> simp [asgCode, execSeq, Cpu.exec, Cpu.rd, opd, Cpu.ea, wr, rval, val, srcOf, asgFlags, FlagsInv, elAddr]
     | x => exact ⟨s, by simp [asgCode, execSeq], by simp [wr, rval, srcOf], rfl, by simpa [asgFlags] using hinv⟩
     | y => simp [asgCode, execSeq, Cpu.exec, wr, rval, srcOf, asgFlags, FlagsInv]
   | y =>
     cases a with
     | of b =>
-      cases b <;> simp [asgCode, execSeq, Cpu.exec, Cpu.rd, opd, Cpu.ea, wr, rval, val, srcOf, asgFlags, FlagsInv]
+      cases b with
+      | const n => simp [asgCode, execSeq, Cpu.exec, Cpu.rd, opd, Cpu.ea, wr, rval, val, srcOf, asgFlags, FlagsInv]
+      | var w => simp [asgCode, execSeq, Cpu.exec, Cpu.rd, opd, Cpu.ea, wr, rval, val, srcOf, asgFlags, FlagsInv]
+      | el t i =>
+        cases i <;> simp [asgCode, execSeq, Cpu.exec, Cpu.rd, opd, Cpu.ea, wr, rval, val, srcOf, asgFlags, FlagsInv, elAddr]
     | y => exact ⟨s, by simp [asgCode, execSeq], by simp [wr, rval, srcOf], rfl, by simpa [asgFlags] using hinv⟩
     | x => simp [asgCode, execSeq, Cpu.exec, wr, rval, srcOf, asgFlags, FlagsInv]
 
 /-- `lv := x ∘ y` -/
-theorem binCode_exec (L : Layout) (s : Cpu) (fl : Option FRef) (v : LV) (op : BOp) (x y : RA) (hinv : FlagsInv L fl s) :
-    ∃ s', execSeq s (binCode Opd.none (opd L) v op x y) = some s' ∧ srcOf s' = binSpec L (srcOf s) v op x y ∧
-      s'.sp = s.sp ∧ FlagsInv L (if orZeroReg op x y then asgFlags fl v x else some v) s' := by
+theorem binCode_exec (L : Layout) (zp : String → Bool) (s : Cpu) (fl : Option FRef) (v : LV) (op : BOp) (x y : RA) (hinv : FlagsInv L fl s) :
+    ∃ s', execSeq s (binCode Opd.none (opd L) zp v op x y) = some s' ∧ srcOf s' = binSpec L (srcOf s) v op x y ∧
+      s'.sp = s.sp ∧ FlagsInv L (if orZeroReg op x y then asgFlags zp fl v x else some v) s' := by
   by_cases hz : orZeroReg op x y = true
-  · obtain ⟨s', h1, h2, h3, h4⟩ := asgCode_exec L s fl v x hinv
+  · obtain ⟨s', h1, h2, h3, h4⟩ := asgCode_exec L zp s fl v x hinv
     exact ⟨s', by simp [binCode, hz, h1], by simp [binSpec, hz, h2], h3, by simpa [hz] using h4⟩
   · have hz' : orZeroReg op x y = false := by simpa using hz
     obtain ⟨s1, e1, a1, m1, p1, z1⟩ := loadA_exec L s x
@@ -167,17 +208,32 @@ theorem incCode_exec (L : Layout) (s : Cpu) (inc : Bool) (v : LV) :
     ∃ s', execSeq s (incCode Opd.none (opd L) inc v) = some s' ∧
       srcOf s' = wr L (srcOf s) v (if inc then rval L (srcOf s) v.ra + 1 else rval L (srcOf s) v.ra - 1) ∧
       s'.sp = s.sp ∧ FlagsInv L (some v) s' := by
-  cases v <;> cases inc <;> simp [incCode, execSeq, Cpu.exec, opd, Cpu.ea, wr, rval, LV.ra, val, srcOf, FlagsInv]
+  cases v with
+  | var n => cases inc <;> simp [incCode, execSeq, Cpu.exec, opd, Cpu.ea, wr, rval, LV.ra, val, srcOf, FlagsInv]
+  | x => cases inc <;> simp [incCode, execSeq, Cpu.exec, opd, Cpu.ea, wr, rval, LV.ra, val, srcOf, FlagsInv]
+  | y => cases inc <;> simp [incCode, execSeq, Cpu.exec, opd, Cpu.ea, wr, rval, LV.ra, val, srcOf, FlagsInv]
+  | el t i =>
+    cases i with
+    | k n => cases inc <;> simp [incCode, execSeq, Cpu.exec, opd, Cpu.ea, wr, rval, LV.ra, val, srcOf, FlagsInv, elAddr]
+    | x => cases inc <;> simp [incCode, execSeq, Cpu.exec, opd, Cpu.ea, wr, rval, LV.ra, val, srcOf, FlagsInv, elAddr]
+    | y =>
+      obtain ⟨s1, e1, a1, m1, p1, z1⟩ := loadA_exec L s (.of (.el t .y))
+      obtain ⟨s2, e2, a2, m2, p2, z2⟩ := opCode_exec L s1 (if inc then .add else .sub) (.of (.const 1))
+      obtain ⟨s3, e3, m3, p3, z3⟩ := storeA_exec L s2 (.el t .y)
+      refine ⟨s3, ?_, ?_, by rw [p3, p2, p1], z3 (z2 z1)⟩
+      · simp only [incCode, execSeq_append', e1, Option.bind_some, e2, e3]
+      · rw [m3, m2, a2, a1, m1]
+        cases inc <;> simp [tmpWrite, RA.isReg, rval, val, LV.ra, BOp.apply]
 
 /-- every statement, every layout, every machine state: the code ends, memory / X / Y are what the source
     prescribes, SP is untouched, and the generator's belief about the flags is true afterwards -/
-theorem rflat_correct (L : Layout) (st : RStmt) (fl : Option FRef) (s : Cpu) (hinv : FlagsInv L fl s) :
-    ∃ s', execSeq s (rgenOps L st) = some s' ∧ srcOf s' = rspec L (srcOf s) st ∧ s'.sp = s.sp ∧
-      FlagsInv L (flagsAfter fl st) s' := by
+theorem rflat_correct (L : Layout) (zp : String → Bool) (st : RStmt) (fl : Option FRef) (s : Cpu) (hinv : FlagsInv L fl s) :
+    ∃ s', execSeq s (rgenOps L zp st) = some s' ∧ srcOf s' = rspec L (srcOf s) st ∧ s'.sp = s.sp ∧
+      FlagsInv L (flagsAfter zp fl st) s' := by
   cases st with
-  | asg v a => simpa [rgenOps, rtemplate, rspec, flagsAfter] using asgCode_exec L s fl v a hinv
-  | bin v op a b => simpa [rgenOps, rtemplate, rspec, flagsAfter] using binCode_exec L s fl v op (rordered op a b).1 (rordered op a b).2 hinv
-  | opasg v op a => simpa [rgenOps, rtemplate, rspec, flagsAfter] using binCode_exec L s fl v op v.ra a hinv
+  | asg v a => simpa [rgenOps, rtemplate, rspec, flagsAfter] using asgCode_exec L zp s fl v a hinv
+  | bin v op a b => simpa [rgenOps, rtemplate, rspec, flagsAfter] using binCode_exec L zp s fl v op (rordered op a b).1 (rordered op a b).2 hinv
+  | opasg v op a => simpa [rgenOps, rtemplate, rspec, flagsAfter] using binCode_exec L zp s fl v op v.ra a hinv
   | inc v => simpa [rgenOps, rtemplate, rspec, flagsAfter] using incCode_exec L s true v
   | dec v => simpa [rgenOps, rtemplate, rspec, flagsAfter] using incCode_exec L s false v
 
